@@ -140,12 +140,12 @@ theorem tie_MatchString (st : St) (F : FactsProg.File) (f : Text.File) (rel : Fi
       simp only [Go.hasPrefix, v1', v2, isPrefixOf_ints]
       by_cases c2 : str.isPrefixOf (f.data.drop (p - f.offset)) = true
       · rw [if_pos c2]
-        simp only [c2, if_true]
+        simp only [c2, if_true, if_false, Bool.not_true, Bool.not_false, Bool.false_eq_true, reduceIte]
         refine ⟨st2, ?_, g2⟩
         simp only [Text.File.pos]
         congr 2; omega
       · rw [if_neg c2]
-        simp only [c2]
+        simp only [c2, if_true, if_false, Bool.not_true, Bool.not_false, Bool.false_eq_true, reduceIte]
         exact ⟨st2, rfl, g2⟩
 
 /-! ### MatchWord -/
@@ -159,17 +159,19 @@ def LoopOut (r : Res (Option (Int × Bool) × Int)) (m : Option Bool) (p : Nat) 
 
 theorem matchWord_loop_tie (st : St) (F : FactsProg.File) (f : Text.File) (rel : FileRel st F f) (p cur : Nat) (rng : Sl)
     (word : Text.Bytes) (hv : view st rng = ints word) (hl : rng.len = word.length)
-    (hfit : word.length + cur ≤ f.data.length) :
-    ∀ (fuel k : Nat) (pi ci ki : Int), pi = p → ci = cur → ki = k → word.length - k < fuel → k ≤ word.length →
-      LoopOut (Reader_MatchWord_loop1 ⟨F⟩ pi ci rng fuel ki st) (Text.matchWordLoop f.data cur (word.drop k) k) p st := by
+    (hfit : word.length + cur ≤ f.data.length) (hpc : (p : Int) - F.offset = (cur : Int)) :
+    ∀ (fuel k : Nat) (pi ki : Int), pi = p → ki = k → word.length - k < fuel → k ≤ word.length →
+      LoopOut (Reader_MatchWord_loop1 ⟨F⟩ pi rng fuel ki st) (Text.matchWordLoop f.data cur (word.drop k) k) p st := by
+  -- (the cursor `cur := int(pos) - r.file.offset` is not a parameter of the loop function: the translator writes a
+  -- temporary that no statement assigns again as the expression it stands for wherever a loop mentions it)
   intro fuel
   induction fuel with
-  | zero => intro k pi ci ki _ _ _ hf; omega
+  | zero => intro k pi ki _ _ hf; omega
   | succ fuel ih =>
-    intro k pi ci ki e1 e2 e3 hf hk
+    intro k pi ki e1 e3 hf hk
     rw [Reader_MatchWord_loop1]
     simp only [ite_apply, bind_apply, pure_apply]
-    subst e1 e2 e3
+    subst e1 e3
     have hlen : Go.len rng = (word.length : Int) := by simp [Go.len, hl]
     rcases Nat.lt_or_ge k word.length with c | c
     · obtain ⟨b, hb⟩ : ∃ b, word.getD k 0 = b := ⟨_, rfl⟩
@@ -189,7 +191,7 @@ theorem matchWord_loop_tie (st : St) (F : FactsProg.File) (f : Text.File) (rel :
         obtain ⟨d, hd⟩ : ∃ d, f.data.getD (cur + k) 0 = d := ⟨_, rfl⟩
         have hget : f.data[cur + k]? = some d := by
           simp [← hd, List.getD_eq_getElem?_getD, List.getElem?_eq_getElem hin]
-        have hreadd : Go.idx F.data ((cur : Int) + (k : Int)) st = .ok ((d : Nat) : Int) st := by
+        have hreadd : Go.idx F.data ((p : Int) - F.offset + (k : Int)) st = .ok ((d : Nat) : Int) st := by
           rw [← hd]; exact rel.read (cur + k) hin _ (by omega)
         rw [hget]
         simp only []
@@ -200,7 +202,7 @@ theorem matchWord_loop_tie (st : St) (F : FactsProg.File) (f : Text.File) (rel :
         · rw [if_neg c2]
           have c2' : b = d := by omega
           go_decide_text [hread, hlen, hreadd]
-          exact ih (k + 1) _ _ _ rfl rfl (by omega) (by omega) (by omega)
+          exact ih (k + 1) _ _ rfl (by omega) (by omega) (by omega)
     · have hk' : k = word.length := by omega
       go_decide_text [hlen]
       rw [List.drop_of_length_le c]
@@ -231,8 +233,8 @@ theorem tie_MatchWord (st : St) (F : FactsProg.File) (f : Text.File) (rel : File
       obtain ⟨rng, st2, e2, g2, v2, l2, _, _⟩ := bytesOf_spec st (ints word)
       have rel2 := fileRel_grows rel g2
       have hlen2 : Go.len rng = (word.length : Int) := by simp [Go.len, l2]
-      have hloop := matchWord_loop_tie st2 F f rel2 p (p - f.offset) rng word v2 (by simpa using l2) (by omega)
-        (word.length + 1) 0 (p : Int) ((p : Int) - F.offset) 0 rfl hcur rfl (by omega) (by omega)
+      have hloop := matchWord_loop_tie st2 F f rel2 p (p - f.offset) rng word v2 (by simpa using l2) (by omega) hcur
+        (word.length + 1) 0 (p : Int) 0 rfl rfl (by omega) (by omega)
       simp only [List.drop_zero] at hloop
       go_decide_text [e2, hlen2]
       generalize Text.matchWordLoop f.data (p - f.offset) word 0 = m at hloop
